@@ -475,6 +475,24 @@ def case_table_multi(B, cfg):
         events.append((lv, start, du, period, mult))
     mm = DosedSymMech(B, 2, 1, events)
     pm = chi.PredictiveModel(mm, chi.GaussianErrorModel())
+    wk = cfg.get('wrapper')
+    if wk:
+        # the same table asked of a model that wraps the predictive model
+        import pints
+        from .c15 import _posterior_dataset
+        if wk == 'population':
+            pm = chi.PopulationPredictiveModel(
+                pm, chi.ComposedPopulationModel(
+                    [chi.PooledModel() for _ in range(3)]))
+        elif wk == 'prior':
+            pm = chi.PriorPredictiveModel(pm, pints.ComposedLogPrior(*[
+                pints.HalfCauchyLogPrior(0, 1) for _ in range(3)]))
+        else:
+            ds, _ = _posterior_dataset(B, pm.get_parameter_names(), None, 1,
+                                       2)
+            pm = chi.PosteriorPredictiveModel(pm, ds)
+            if wk == 'pam':
+                pm = chi.PAMPredictiveModel([pm, pm], [1.0, 2.0])
     ft = cfg['final_time']
     try:
         tab = pm.get_dosing_regimen(ft)
@@ -662,6 +680,11 @@ def jobs(tier):
         for ft in (None, 2.5, 12.0, 40.0, 0.25):
             out.append(('table', 'case_table_multi', dict(
                 events=ev, final_time=ft), FACADE))
+    for k, wk in enumerate(('population', 'prior', 'posterior', 'pam')):
+        for ev in (evsets[1], evsets[2], [(0.5, 2.0, 0)]):
+            for ft in (None, 2.5, 7.0):
+                out.append(('table', 'case_table_multi', dict(
+                    events=ev, final_time=ft, wrapper=wk), FACADE))
     for wkind in ('predictive', 'population', 'prior', 'posterior'):
         for period, num in ((False, None), (True, None), (True, 2)):
             out.append(('wrappers', 'case_wrappers', dict(
